@@ -24,6 +24,7 @@ options + memo entries); `Rep.GuardOK` is its invariant (`precomputed_guard_soun
 -/
 import GT.Lemmas.RepAut
 import GT.Lemmas.RepAutFreeWords
+import GT.Lemmas.RepAutLangStar
 
 set_option linter.unusedSectionVars false
 
@@ -283,6 +284,40 @@ theorem automatonAccepted_eq_enumerate (ρ : Rep n R) (hp : ρ.parseSimple = tru
     (h : ρ.automatonAccepted a L true true startState none memo edgeWords = .ok (res, memo'))
     (he : a.enumWords s L = .ok ws) : res.words.Perm (ws.map Prod.fst) :=
   Rep.automatonAccepted_eq_enumerate ρ hp a L startState memo memo' edgeWords res s hs ws hm h he
+
+/-- the language statements for EVERY representation (no `parse_simple` hypothesis): the returned
+words are the labels of the paths combined with `Representation._join_words` (`Rep.joinW`:
+concatenation for `parse_simple`, `"*"`-join otherwise), one per path; `startLangJ` / `endLangJ` are the
+reference path enumerations over that join, and `startLangJ (· ++ ·) = startLang` -/
+theorem accepted_words_start_any (ρ : Rep n R) (a : Aut V) (o : AccOpts) (h1 : o.asStart = true)
+    (L : Nat) (v : V) (pairs : List (String × DMat n n R)) (h : ρ.accSpec a o L v = .ok pairs) :
+    (pairs.map Prod.fst).Perm (startLangJ ρ.joinW a o.maxlen L v) :=
+  Rep.accepted_words_startJ ρ a o h1 L v pairs h
+
+theorem accepted_words_end_any (ρ : Rep n R) (a : Aut V) (hwf : a.WF) (o : AccOpts)
+    (h1 : o.asStart = false) (L : Nat) (v : V) (pairs : List (String × DMat n n R))
+    (h : ρ.accSpec a o L v = .ok pairs) : (pairs.map Prod.fst).Perm (endLangJ ρ.joinW a o.maxlen L v) :=
+  Rep.accepted_words_endJ ρ a hwf o h1 L v pairs h
+
+theorem automatonAccepted_words_start_any (ρ : Rep n R) (a : Aut V) (L : Nat) (maxlen : Bool)
+    (startState : Option V) (memo memo' : Memo V n R) (edgeWords : Bool) (res : AccRes n R)
+    (s : V) (hs : (startState <|> a.starts.head?) = some s)
+    (hm : MemoOK ρ a (topOpts maxlen true (none : Option V) edgeWords) memo)
+    (h : ρ.automatonAccepted a L maxlen true startState none memo edgeWords = .ok (res, memo')) :
+    res.words.Perm (startLangJ ρ.joinW a maxlen L s) :=
+  Rep.automatonAccepted_words_startJ ρ a L maxlen startState memo memo' edgeWords res s hs hm h
+
+theorem automatonAccepted_words_end_any (ρ : Rep n R) (a : Aut V) (hwf : a.WF) (L : Nat)
+    (maxlen : Bool) (e : V) (memo memo' : Memo V n R) (edgeWords : Bool) (res : AccRes n R)
+    (hm : MemoOK ρ a (topOpts maxlen true (some e) edgeWords) memo)
+    (h : ρ.automatonAccepted a L maxlen true none (some e) memo edgeWords = .ok (res, memo')) :
+    res.words.Perm (endLangJ ρ.joinW a maxlen L e) :=
+  Rep.automatonAccepted_words_endJ ρ a hwf L maxlen e memo memo' edgeWords res hm h
+
+theorem joinW_laws (ρ : Rep n R) : JoinLaws ρ.joinW := Rep.joinLaws_joinW ρ
+
+theorem startLangJ_append (a : Aut V) (maxlen : Bool) (L : Nat) (v : V) :
+    startLangJ (· ++ ·) a maxlen L v = startLang a maxlen L v := Rep.startLangJ_append a maxlen L v
 
 /-- the reference enumeration is the literal `enumerate_fixed_length_paths` -/
 theorem enumFixed_eq_paths (a : Aut V) (s : V) (k : Nat) (xs : List (String × V))
